@@ -25,8 +25,8 @@ for m in re.finditer(r"(C\d\d) rc=(\d) violations=(\d+)", r):
 notes = open(out + "/notes.md").read() if __import__("os").path.exists(out + "/notes.md") else ""
 meta = {
   "seed": f"{id_}-{i}",
-  "property_targeted": id_,
-  "origin": "independent sub-agent given only the property text and a scratch worktree",
+  "property_targeted": id_.split("-")[-1],
+  "origin": "independent sub-agent given only the property text and a scratch worktree" + (" (second round: asked for subtler changes)" if id_.startswith("R2-") else ""),
   "change": json.load(open("/verif/seeded/summaries.json")).get(f"{id_}-{i}", {}).get("change"),
   "needs_to_manifest": json.load(open("/verif/seeded/summaries.json")).get(f"{id_}-{i}", {}).get("needs"),
   "confirmed": {
